@@ -59,12 +59,15 @@ def check(run):
         a, b = tabs['pyclifford'][what], tabs['torchclifford'][what]
         run.check(a == b and a, 'R12.port', (K.TC_P, 'paulialg'), what, '%s differ between the packages: %r vs %r' % (what, a, b))
     # ---- permutations
-    pa = {n: parallel.permutation_any(repo.func(K.PY_U, n)) for n in ('map_to_state', 'state_to_map')}
-    pb = {n: parallel.permutation_any(repo.func(K.TC_U, n)) for n in ('map_to_state', 'state_to_map')}
-    for n in pa:
-        A = sorted(sorted((ft, fv) for ft, fv, _, _ in v) for v in pa[n].values())
-        B = sorted(sorted((ft, fv) for ft, fv, _, _ in v) for v in pb[n].values())
-        run.check(A == B and len(A) == 2, 'R13.port', repo.func(K.TC_U, n), n, 'row permutation of %s differs between the packages: %s vs %s' % (n, A, B))
+    for n in ('map_to_state', 'state_to_map'):
+        for Nq in (2, 3):
+            try:
+                A = parallel.permutation_exec(repo.func(K.PY_U, n), Nq)
+                B = parallel.permutation_exec(repo.func(K.TC_U, n), Nq)
+            except Undecidable as e:
+                run.undecided('R13.port', repo.func(K.TC_U, n), n, 'row permutation not interpretable: %s' % e)
+                continue
+            run.check(A == B, 'R13.port', repo.func(K.TC_U, n), '%s, N=%d' % (n, Nq), 'row permutation of %s differs between the packages: %s vs %s' % (n, A, B))
     # ---- same records for the rewritten kernels
     rotate.check_masked_rotation(run, repo.func(K.TC_U, 'clifford_rotate'), signed=True)
     rotate.check_masked_rotation(run, repo.func(K.TC_U, 'clifford_rotate_signless'), signed=False)
@@ -145,7 +148,7 @@ def check(run):
     run.floor('R8', 11)
     run.floor('R8.port', 6)
     run.floor('R12.port', 7)
-    run.floor('R13.port', 2)
+    run.floor('R13.port', 4)
     run.floor('R2.sig', 120)
     run.floor('R18.port', 30)
     run.floor('R9.block', 3)
